@@ -154,3 +154,11 @@ META["C20"] = {
             "complete transcripts including dump output must be identical. The evidence reports how many thread switches and distinct schedule prefixes were actually observed. Held on the replays explored.",
     "note": "Trusted: transcript rendering; the OS scheduler decides interleavings (measured, not assumed).",
 }
+
+META["C07"] = {
+    "technique": "independent term-level proof checker run over every explanation produced on generated histories (explanations build)",
+    "design_ref": "DESIGN.md §3.6, §4 C07",
+    "text": "Every proof returned by explain_equivalence for equal pairs of generated histories (3-cycles, redundancy, congruence under binders, rule applications) is re-checked node by node by "
+            "a checker that works on terms rendered from the proof's equations, never on the crate's own check routines; explain must not panic and the conclusion must be the query. Held on the proofs explored.",
+    "note": "Trusted: the checker in harness/src/props/c07.rs (rule formulations granted by the statement: per-side injective renamings); the checks,explanations build is not exercised (its assert_match_equation is stricter than the statement).",
+}
